@@ -10,10 +10,17 @@ Level: **partial** (see the MANIFEST text).  What the theorems carry:
 * the byte-level contract of `copy_cstr` — for ALL texts and ALL capacities ≥ 1 the buffer holds a NUL-terminated,
   valid-UTF-8, longest whole-character prefix of the text; it is the whole text (= the heap variant) whenever the
   text is shorter than the buffer (`cstr_wellformed`, `cstr_wellformed_all`, `static_eq_heap_partial`);
-* the ownership protocol — the three collected iterators can never be invalidated (`collected_iters_safe`,
-  `ub_only_at`), the user-phrase iterator is safe when no possibly-mutating call separates `enumerate` from a
-  `has_next`/`get` (`userphrase_iter_safe_partial`) and unsafe otherwise (`userphrase_iter_safe_refuted`, F22),
-  every live heap result is registered with its true kind and released by `chewing_free` (`free_releases`);
+* the ownership protocol — all FOUR stored iterators own their data (since `fix: chewing_userphrase_enumerate takes a
+  snapshot …` the user-phrase iterator too; since `fix: chewing_kbtype_String stops at the end …` the keyboard-type
+  counter is fused): every call other than `chewing_free` is defined in every state (`collected_iters_safe`,
+  `ub_only_at`), NO history of calls whatsoever is undefined (`history_defined`, `userphrase_iter_safe` — the former
+  finding F22, refuted for the code before the fix in `old_userphrase_iter_refuted`), an interleaved call cannot change
+  a pending user-phrase enumeration (`userphrase_iter_frame`: it is a snapshot), an exhausted enumeration stays
+  exhausted (`kbtype_walk_total`; `old_kbtype_counter_refuted` for the earlier `u8` counter), and under the allocator's
+  contract every live heap result is registered with its true kind and released by `chewing_free` (`history_ok`,
+  `free_releases`, `free_total`);
+* `chewing_config_get_str("chewing.selection_keys")` hands out valid UTF-8 (one character per key) or ERROR for EVERY
+  array of integers the legacy setters may have stored (`selkeys_getter_wellformed`);
 * table facts regenerated from the source: buffer capacities, keyboard names < 32 bytes, the syllable buffer
   text < 16 bytes, the inventory of exported functions / `unsafe` blocks / iterator sites.
 
@@ -146,8 +153,85 @@ theorem old_copy_cstr_refuted :
     utf8Decode (copyCstrOld 4 (utf8Encode [0x6E2C, 0x6E2C])) = none := by
   constructor <;> decide
 
-/-- the translator recognised the fixed shapes of `copy_cstr` and of `chewing_free` -/
-theorem source_shapes : copyCstrShape = 1 ∧ freeShape = 1 ∧ freeRemoves = 1 ∧ userphraseIterBorrows = 1 := by decide
+/-- the translator recognised the fixed shapes of `copy_cstr`, of `chewing_free`, of the user-phrase iterator (an owned
+`vec::IntoIter` filled by `entries().collect()`, no borrow of the dictionary), of the fused keyboard-type counter and
+of the selection-keys arm of `chewing_config_get_str` (chars collected into a `String`, `CString::new`) -/
+theorem source_shapes :
+    copyCstrShape = 1 ∧ freeShape = 1 ∧ freeRemoves = 1 ∧ userphraseIterBorrows = 0 ∧ kbIterFused = 1 ∧
+    selKeysGetterShape = 1 := by decide
+
+/-! ### the selection keys as a string
+
+`chewing_set_selKey` / `chewing_Configure` store ANY ten integers (finding F05b of C16: not only ASCII codes);
+`chewing_config_get_str("chewing.selection_keys")` must still hand out well-formed text. -/
+
+theorem selKeysChars_lt (keys : List Int) : ∀ c ∈ selKeysChars keys, c < 256 := by
+  intro c hc
+  obtain ⟨k, _, rfl⟩ := List.mem_map.mp hc
+  omega
+
+theorem zero_mem_utf8Encode (cs : List Nat) (h : 0 ∈ cs) : 0 ∈ utf8Encode cs := by
+  induction cs with
+  | nil => cases h
+  | cons c r ih =>
+    simp only [utf8Encode, List.mem_append]
+    rcases List.mem_cons.mp h with h0 | hr
+    · left; rw [← h0]; decide
+    · right; exact ih hr
+
+/-- **selkeys_getter_wellformed**: for EVERY ten (or any number of) integers the context may hold as selection keys —
+Latin-1 codes, 0, values beyond a byte, negative values — the getter either reports ERROR, exactly when some key's low
+byte is 0, or hands out a NUL-terminated buffer whose text is valid UTF-8 and decodes to one character per key, the
+key's low byte as a code point. -/
+theorem selkeys_getter_wellformed (keys : List Int) :
+    (selKeysCStr keys = none ↔ ∃ k ∈ keys, k % 256 = 0) ∧
+    ∀ buf, selKeysCStr keys = some buf →
+      cText buf = some (utf8Encode (selKeysChars keys)) ∧
+      utf8Decode (utf8Encode (selKeysChars keys)) = some (selKeysChars keys) ∧
+      ValidUtf8 (utf8Encode (selKeysChars keys)) := by
+  have hsc : ∀ c ∈ selKeysChars keys, IsScalar c := fun c hc => Or.inl (by have := selKeysChars_lt keys c hc; omega)
+  have hzero : (0 ∈ selKeysChars keys) ↔ ∃ k ∈ keys, k % 256 = 0 := by
+    unfold selKeysChars
+    constructor
+    · intro h
+      obtain ⟨k, hk, h0⟩ := List.mem_map.mp h
+      exact ⟨k, hk, by omega⟩
+    · rintro ⟨k, hk, h0⟩
+      exact List.mem_map.mpr ⟨k, hk, by omega⟩
+  constructor
+  · unfold selKeysCStr heapCstr
+    constructor
+    · intro h
+      by_cases hz : 0 ∈ utf8Encode (selKeysChars keys)
+      · apply hzero.mp
+        apply Classical.byContradiction
+        intro hn
+        exact utf8Encode_nonzero _ (fun c hc h0 => hn (h0 ▸ hc)) 0 hz rfl
+      · rw [if_neg hz] at h; cases h
+    · intro h
+      rw [if_pos (zero_mem_utf8Encode _ (hzero.mpr h))]
+  · intro buf hb
+    have hnz : ∀ b ∈ utf8Encode (selKeysChars keys), b ≠ 0 := by
+      intro b hbm h0
+      unfold selKeysCStr heapCstr at hb
+      rw [if_pos (h0 ▸ hbm)] at hb; cases hb
+    obtain ⟨buf', h1, h2⟩ := heapCstr_text _ hnz
+    unfold selKeysCStr at hb
+    rw [h1] at hb
+    cases hb
+    exact ⟨h2, decode_encode _ hsc, valid_encode _ hsc⟩
+
+/-- a C string built from the RAW low bytes instead (NOT the code; the shape the translator rejects and the harness
+oracle catches): ten keys 0xE9 — the keysym of `é` — would be handed out as ten bytes 0xE9, which is not UTF-8 -/
+theorem raw_selkeys_refuted :
+    ∃ buf, selKeysCStrRaw (List.replicate 10 0xE9) = some buf ∧ cText buf = some (List.replicate 10 0xE9) ∧
+      ¬ ValidUtf8 (List.replicate 10 0xE9) := ⟨_, rfl, by decide, by unfold ValidUtf8; decide⟩
+
+/-- … while the code hands out `é` ten times: 20 bytes `C3 A9`; and an array with 0 in unused slots is an ERROR -/
+example : (selKeysCStr (List.replicate 10 0xE9)).bind cText = some ((List.replicate 10 [0xC3, 0xA9]).flatten) := by decide
+example : selKeysCStr [49, 50, 51, 52, 53, 0, 0, 0, 0, 0] = none ∧ selKeysCStr [256, 49, 50, 51, 52, 53, 54, 55, 56, 57] = none := by
+  decide
+example : (selKeysCStr [-1, -128, 0x1E9, 65]).bind cText = some [0xC3, 0xBF, 0xC2, 0x80, 0xC3, 0xA9, 65] := by decide
 
 /-! ## 2. Buffers suffice (tables regenerated from the source) -/
 
@@ -251,55 +335,110 @@ theorem dict_mut_sane :
 
 /-! ## 4. Ownership protocol -/
 
-/-- operations on the three collected iterators (candidates, intervals, keyboard types) and every call without an
-arm of its own -/
-def IsCollectedOp (op : Op) : Prop := op ≠ .upHasNext ∧ op ≠ .upGet ∧ ∀ a, op ≠ .free a
+/-- every call that is not `chewing_free`: the operations on the FOUR stored iterators (candidates, intervals,
+keyboard types, user phrases) and every call without an arm of its own -/
+def IsCollectedOp (op : Op) : Prop := ∀ a, op ≠ .free a
 
-/-- **collected_iters_safe**: candidate, interval and keyboard-type iterators own their data — in EVERY state of the
-context (after any history, mutating calls included) every operation on them is defined. -/
+/-- **collected_iters_safe**: the candidate, interval, keyboard-type AND user-phrase iterators own their data — in
+EVERY state of the context (after any history, mutating calls included) every operation on them is defined. -/
 theorem collected_iters_safe (c : Ctx) (op : Op) (h : IsCollectedOp op) : ∃ c' r, step c op = .ok (c', r) :=
   step_collected_ok c op h
 
-/-- undefined behaviour can only arise at a use of the user-phrase iterator or at `chewing_free` -/
-theorem ub_only_at (c : Ctx) (op : Op) (s : String) (h : step c op = .ub s) :
-    op = .upHasNext ∨ op = .upGet ∨ ∃ a, op = .free a := by
-  by_cases h1 : op = .upHasNext
-  · exact Or.inl h1
-  by_cases h2 : op = .upGet
-  · exact Or.inr (Or.inl h2)
+/-- undefined behaviour can only arise at `chewing_free` (and only on a registry that names a block which is not a
+live result of that kind — never the case after a history, see `history_defined`) -/
+theorem ub_only_at (c : Ctx) (op : Op) (s : String) (h : step c op = .ub s) : ∃ a, op = .free a := by
   by_cases h3 : ∃ a, op = .free a
-  · exact Or.inr (Or.inr h3)
+  · exact h3
   · exfalso
-    obtain ⟨c', r, hs⟩ := step_collected_ok c op ⟨h1, h2, fun a ha => h3 ⟨a, ha⟩⟩
+    obtain ⟨c', r, hs⟩ := step_collected_ok c op (fun a ha => h3 ⟨a, ha⟩)
     rw [hs] at h; cases h
+
+/-- **history_defined** — the FULL statement of the ownership half of C15: NO history of calls, in any order, of any
+length, with any arguments (any pointer passed to `chewing_free`, any address handed out by the allocator), makes the
+context use an invalid object.  No premise. -/
+theorem history_defined (ops : List Op) : ∃ c rs, run init ops = .ok (c, rs) := by
+  obtain ⟨c, rs, h, _⟩ := run_defined ops init regSound_init
+  exact ⟨c, rs, h⟩
 
 /-- FULL statement for the user-phrase enumeration: no history makes it touch a stale dictionary -/
 def UserphraseIterSafe : Prop := ∀ ops, run init ops ≠ .ub "userphrase_iter"
 
+/-- **userphrase_iter_safe** (the former finding F22, now a theorem at full strength) -/
+theorem userphrase_iter_safe : UserphraseIterSafe := by
+  intro ops h
+  obtain ⟨c, rs, hr⟩ := history_defined ops
+  rw [hr] at h; cases h
+
 /-- F22 witness: enumerate, get, a key that learns (⇒ reload replaces the `Trie`), get -/
 def witnessF22 : List Op := [.upEnumerate 3, .upGet, .mutate, .upGet]
 
-/-- **refuted** (known finding F22) -/
-theorem userphrase_iter_safe_refuted : ¬ UserphraseIterSafe := by
-  intro h; exact h witnessF22 (by decide)
+/-- the code BEFORE `fix: chewing_userphrase_enumerate takes a snapshot …` (recorded as `fixed:`): the stored iterator
+borrowed the dictionary, the witness history was undefined at its last call; `Peekable`'s cached entry was an owned
+clone, so a `has_next` before the mutation made the NEXT `get` safe and the one after it undefined -/
+theorem old_userphrase_iter_refuted :
+    runWith stepBorrow init witnessF22 = .ub "userphrase_iter" ∧
+    runWith stepBorrow init [.upEnumerate 3, .upHasNext, .mutate, .upGet, .upGet] = .ub "userphrase_iter" ∧
+    (runWith stepBorrow init [.upEnumerate 3, .upHasNext, .mutate, .upGet]).results = some [0, 1, 0, 0] := by
+  refine ⟨by decide, by decide, by decide⟩
 
-/-- the cached entry of `Peekable` is an owned clone: `has_next` before the mutation makes the NEXT `get` safe, the
-one after it is not -/
-example : run init [.upEnumerate 3, .upHasNext, .mutate, .upGet] = .ok
-    ({ epoch := 1, uiter := some { epoch := 0, it := { rest := 2, peeked := none } } }, [0, 1, 0, 0]) := by decide
-example : run init [.upEnumerate 3, .upHasNext, .mutate, .upGet, .upGet] = .ub "userphrase_iter" := by decide
+/-- the same histories on the current code: defined, and the enumeration goes on over the snapshot of 3 entries -/
+example : (run init witnessF22).results = some [0, 0, 0, 0] := by decide
+example : (run init [.upEnumerate 3, .upHasNext, .mutate, .upGet, .upGet, .upGet, .upGet, .upHasNext]).results =
+    some [0, 1, 0, 0, 0, 0, -1, 0] := by decide
 
-/-- **userphrase_iter_safe_partial** + **free_releases** along histories: if no possibly-mutating call separates an
-`enumerate` from a later `has_next`/`get`, and the allocator keeps its contract (`heapOkRun`: a fresh block is never at
-the address of a live result; `chewing_free` has no precondition), then the WHOLE history is defined — no use of an invalid object at
-any site — and ends with every live heap result registered under its true kind. -/
-theorem userphrase_iter_safe_partial (ops : List Op)
-    (hd : disciplined false ops = true) (hh : heapOkRun init ops = true) :
+/-- calls that write the stored user-phrase iterator -/
+def touchesU : Op → Bool
+  | .reset | .upEnumerate _ | .upHasNext | .upGet => true
+  | _ => false
+
+/-- **userphrase_iter_frame** (the enumeration is a SNAPSHOT taken at `chewing_userphrase_enumerate`): no other call —
+learning keys, `chewing_userphrase_add` / `remove`, anything — changes the pending enumeration … -/
+theorem userphrase_iter_frame (c : Ctx) (op : Op) (h : touchesU op = false) (c' : Ctx) (r : Res)
+    (hs : step c op = .ok (c', r)) : c'.uiter = c.uiter :=
+  step_uiter_frame c op (by cases op <;> simp_all [touchesU]) c' r hs
+
+/-- … and what `has_next` / `get` answer and leave behind is a function of the pending enumeration alone -/
+theorem userphrase_iter_local (c₁ c₂ : Ctx) (h : c₁.uiter = c₂.uiter) (op : Op) (hop : op = .upHasNext ∨ op = .upGet) :
+    ∃ u r c₁' c₂', step c₁ op = .ok (c₁', r) ∧ step c₂ op = .ok (c₂', r) ∧ c₁'.uiter = u ∧ c₂'.uiter = u := by
+  have h2 : c₂.uiter = c₁.uiter := h.symm
+  rcases hop with rfl | rfl
+  · simp only [step, h2]
+    cases hu : c₁.uiter with
+    | none => exact ⟨none, _, _, _, rfl, rfl, hu, by rw [h2, hu]⟩
+    | some u => dsimp only; split <;> exact ⟨_, _, _, _, rfl, rfl, rfl, rfl⟩
+  · simp only [step, h2]
+    cases hu : c₁.uiter with
+    | none => exact ⟨none, _, _, _, rfl, rfl, hu, by rw [h2, hu]⟩
+    | some u => exact ⟨_, _, _, _, rfl, rfl, rfl, rfl⟩
+
+/-- **kbtype_walk_total** (after `fix: chewing_kbtype_String stops at the end of the enumeration`): however often the
+keyboard-type enumeration of `n` names is read, the first `n` reads deliver a name and EVERY later one the empty
+string; the history is defined for every `m` -/
+theorem kbtype_walk_total (n m : Nat) :
+    ∃ c, run init (.kbEnumerate n :: List.replicate m .kbStringStatic) =
+      .ok (c, 0 :: (List.replicate (min n m) 1 ++ List.replicate (m - n) 0)) := by
+  obtain ⟨hw, hl⟩ := PeekVec.new_wf n
+  obtain ⟨c, h⟩ := kb_walk_static m { init with kbt := some (PeekVec.new n) } (PeekVec.new n) rfl hw
+  rw [hl] at h
+  exact ⟨c, run_cons_ok rfl h⟩
+
+/-- the code BEFORE that fix (recorded as `fixed:`): the counter was an un-fused `RangeFrom<u8>` that every read past
+the end advanced again — the 256th pull after one `chewing_kbtype_Enumerate` overflowed it (abort in a debug build;
+wrap-around and a second enumeration in a release build), for any number of valid layouts; 255 pulls were fine -/
+theorem old_kbtype_counter_refuted (valid : Nat) :
+    KbOld.pulls 256 { start := 0, valid := valid } = none ∧
+    (KbOld.pulls 255 { start := 0, valid := 17 }).isSome = true :=
+  ⟨KbOld.pulls_overflow valid, by decide +kernel⟩
+
+/-- **history_ok** + **free_releases** along histories: if the allocator keeps its contract (`heapOkRun`: a fresh block
+is never at the address of a live result; `chewing_free` has no precondition), then EVERY history — no discipline on the
+order of calls — ends with exactly the live heap results registered, each under its true kind. -/
+theorem history_ok (ops : List Op) (hh : heapOkRun init ops = true) :
     ∃ c rs, run init ops = .ok (c, rs) ∧ RegOK c :=
-  run_ok ops init false uinv_init regOK_init hd hh
+  run_ok ops init regOK_init hh
 
 /-- **free_releases**: in a state where the registry and the live results agree (`RegOK`, an invariant of all
-histories by the theorem above), `chewing_free` of a live result is defined, releases exactly that block (as the kind
+histories by `history_ok`), `chewing_free` of a live result is defined, releases exactly that block (as the kind
 it was allocated with), forgets it, and keeps the invariant. -/
 theorem free_releases (c : Ctx) (hr : RegOK c) (a : Nat) (k : Kind) (ha : a ≠ 0) (hl : lookup a c.live = some k) :
     lookup a c.owned = some k ∧
@@ -337,15 +476,18 @@ theorem stale_registry_refuted :
 
 /-! ## 5. Non-vacuity -/
 
-/-- a history satisfying both premises of the partial theorem that exercises every kind of call: enumerations of all
-four kinds interleaved, mutations outside the user-phrase window, heap results of both kinds released -/
+/-- a history satisfying the premise of `history_ok` that exercises every kind of call: enumerations of all four kinds
+interleaved, mutations INSIDE the user-phrase window, heap results of both kinds released -/
 def sampleHistory : List Op :=
-  [.mutate, .upEnumerate 2, .candEnumerate true 3, .upHasNext, .candHasNext true, .candString 1000, .upGet,
-   .intvEnumerate 1, .kbEnumerate 17, .kbString 1008, .free 1000, .upGet, .upHasNext, .mutate, .candString 1000,
+  [.mutate, .upEnumerate 2, .candEnumerate true 3, .upHasNext, .candHasNext true, .candString 1000, .mutate, .upGet,
+   .intvEnumerate 1, .kbEnumerate 17, .kbString 1008, .free 1000, .mutate, .upGet, .upHasNext, .mutate, .candString 1000,
    .heapGet 1016 (.u16slice 4), .heapGet 2 (.u16slice 0), .free 1016, .free 2, .free 77, .free 1016, .free 0,
-   .intvGet, .intvGet, .upEnumerate 1, .upGet, .free 1008, .free 1000, .free 1000]
+   .intvGet, .intvGet, .upEnumerate 1, .mutate, .upGet, .free 1008, .free 1000, .free 1000]
 
-example : disciplined false sampleHistory = true ∧ heapOkRun init sampleHistory = true := by decide
+example : heapOkRun init sampleHistory = true := by decide
+
+/-- `userphrase_iter_frame` applies to the mutating calls -/
+example : touchesU .mutate = false ∧ touchesU (.free 5) = false ∧ touchesU (.heapGet 8 .cstring) = false := by decide
 
 example : IsText [0x6E2C, 0x8A66, 97, 0x20000] := by
   intro c hc; simp at hc; rcases hc with h | h | h | h <;> subst h <;> exact ⟨by unfold IsScalar; omega, by omega⟩
